@@ -384,7 +384,8 @@ class EAbstractSet(ECollection):
     append = add
 
     def __setitem__(self, index, item):
-        self.check(item)
+        if not isinstance(index, slice):
+            self.check(item)
         super().__setitem__(index, item)
 
     def update(self, others):
